@@ -50,7 +50,7 @@ PROPS = {
         verus=[('u_filter', [r'^Lexer::parse_path$', r'^Parser::to_cmp_op$', r'^Lexer::greater_or_less$', r'^parse_id$', r'^parse_literal$']),
                ('u_enc', [r'^Number::to_zinc$', r'^write_quoted_str$', r'^Str::to_zinc$'])],
         kani=[],
-        witness=None,
+        witness='enum:filter-print-parse',
         design_ref='DESIGN.md section 4, C08',
         level_text=('Proof (Verus) of the parser-side clauses only: a path token has 1 + (number of -> consumed) segments, i.e. it '
                     'ends at the first token that is not ->, and its first segment is the identifier read; to_cmp_op maps the six '
